@@ -314,7 +314,7 @@ def oracle_spec_vs_truth(rec, kinds):
     return bad, cnt
 
 
-def disk_attrs(pid, fam, work):
+def disk_attrs(pid, fam, work, tier='quick'):
     """C05/C06 through the real read path: family files are written to disk as regular files, as relative symbolic links
     to files elsewhere in the project, as absolute links to files outside it and as hard links; the project is scanned
     with graph.Initialize and the attribute oracles run on what THAT scan reports for each path. -> (stats, failures)"""
@@ -353,6 +353,13 @@ def disk_attrs(pid, fam, work):
     for k in range(5):
         os.makedirs(root + '/0big', exist_ok=True)
         open('%s/0big/Big%d.java' % (root, k), 'w').write(filler % k)
+    if tier == 'thorough':
+        # files whose PARSE takes seconds (as in the C07/C08/C09 slow-parse contexts), as many as there are workers,
+        # walked before everything else: every worker handles ordinary files right after a slow one
+        for k in range(5):
+            os.makedirs(root + '/00slow', exist_ok=True)
+            open('%s/00slow/S%d.java' % (root, k), 'w').write('public class S%d {\n  void before() { int q = %d + 2; }\n  /* ' % (k, k) + '/* x ' * 9000 + '\n')
+        stats['slow_parse_files'] = 5
     out = work + '/diskattrs_dump.txt'
     # default environment, then every variable the sources read (the general matrix is applied in the C03 census and the C04/C09 disk stage)
     for ov in [('default', {}, None)] + [o for o in ENV_MATRIX if 'a variable the sources read' in o[0]]:
@@ -512,7 +519,7 @@ def check(pid, tier, seed, t0, st, replay):
                     fam_ = [c_ for c_ in cases if c_['origin'] == 'family']
                     ostats, obad = objview.check(pid, fam_[:25 if tier == 'quick' else 200] + fam_[-12:], work, B + '/harness')
                     stats.update(ostats)
-                    dstats_, dbad_ = disk_attrs(pid, fam_[:24 if tier == 'quick' else 200], work)
+                    dstats_, dbad_ = disk_attrs(pid, fam_[:24 if tier == 'quick' else 200], work, tier)
                     stats.update(dstats_)
                     for b_ in dbad_[:3]:
                         if b_.get('case'):
